@@ -114,6 +114,37 @@ def send_init_units():
                                    "ghost('byte_val') == init_msg and ghost('mp_val') == self._KexDH__e"]), harness=None)]
 
 
+def m_wire_string(ip, st, recv, args, kwargs):
+    st.ghost['ordered'] = st.ghost['ordered'] and st.ghost['n_byte'] == 1 and st.ghost['n_mp'] == 0 and st.ghost['n_pkt'] == 0
+    st.ghost['n_mp'] += 1
+    st.ghost['mp_val'] = args[0]
+    return None
+
+
+def setup_send_init_fixed(ip, st, fr, case):
+    setup_send_init(ip, st, fr, case)
+    fr['self'] = new_kexdh(ip, st, case['$cls'])
+    ip.method_models[('<wire>', 'write_string')] = m_wire_string
+    return {}
+
+
+# the curve methods send one value of a fixed size (a random Curve25519 public value; a static point for the NIST curves: 1 + 2 * field bytes)
+FIXED_INIT = {'KexCurve25519_SHA256': 32, 'KexNISTP256': 65, 'KexNISTP384': 97, 'KexNISTP521': 133}
+
+
+def send_init_fixed_units():
+    """send_init of the four elliptic-curve methods: nothing is raised and exactly one packet goes out: the type byte, then ONE string of the
+    method's size (an uncompressed point starts with 0x04), then send_packet"""
+    U = []
+    for cls, size in FIXED_INIT.items():
+        ens = ["ghost('n_byte') == 1 and ghost('n_mp') == 1 and ghost('n_pkt') == 1 and ghost('ordered')",
+               "ghost('byte_val') == init_msg and len(ghost('mp_val')) == %d" % size]
+        if cls != 'KexCurve25519_SHA256':
+            ens.append("ghost('mp_val')[0] == 4")
+        U.append(Unit(Contract(cls + '.send_init', setup=setup_send_init_fixed, cases=[{'$cls': cls}], raises={}, ensures=ens), harness=None))
+    return U
+
+
 def stubs():
     return [Contract('traceback:format_exc', mode='contract', result='str', modifies=[], ensures=[])]
 
